@@ -101,7 +101,8 @@ func (c *udpScripted) NewSession(ctx context.Context) (zerocopy.UDPClientSession
 	w := c.w
 	k, act, ok := w.nextAct(c.id)
 	if !ok {
-		return info, zerocopy.UDPClientSession{}, errors.New("script exhausted")
+		<-ctx.Done()
+		return info, zerocopy.UDPClientSession{}, ctx.Err()
 	}
 	w.observeMid(k, c.id, "start")
 	time.Sleep(time.Duration(act.Lat))
@@ -159,19 +160,21 @@ func observeUDP(g zerocopy.UDPClient) int {
 	return ie.id
 }
 
-// runUDPBubble runs body in a synctest bubble, guarded by a real-time watchdog outside the bubble:
+// runBubble runs body in a synctest bubble, guarded by a real-time watchdog outside the bubble:
 // if a loopback datagram were lost, the probe would wait for it while the fake clock cannot advance.
-func runUDPBubble(t *testing.T, body func(*testing.T)) {
-	if _, err := startResponder(); err != nil {
-		fmt.Fprintln(os.Stderr, "corr_c19: UDP responder:", err)
-		os.Exit(3)
+func runBubble(t *testing.T, udp bool, body func(*testing.T)) {
+	if udp {
+		if _, err := startResponder(); err != nil {
+			fmt.Fprintln(os.Stderr, "corr_c19: UDP responder:", err)
+			os.Exit(3)
+		}
 	}
 	done := make(chan struct{})
 	go func() {
 		select {
 		case <-done:
 		case <-time.After(120 * time.Second):
-			fmt.Fprintln(os.Stderr, "fatal error: corr_c19 watchdog: a UDP group case did not finish within 120 s of real time")
+			fmt.Fprintln(os.Stderr, "fatal error: corr_c19 watchdog: a group case did not finish within 120 s of real time")
 			os.Exit(97)
 		}
 	}()
